@@ -26,23 +26,29 @@ pub struct Node {
     pub body: Body,
     /// spare bytes appended after the payload (inside the box)
     pub spare: Vec<u8>,
+    /// size field written as 0 = "extends to the end of the file" (only meaningful on the last top-level box)
+    pub open_ended: bool,
 }
 
 impl Node {
     pub fn leaf(cc: &[u8; 4], payload: Vec<u8>) -> Node {
-        Node { cc: *cc, large: false, label: None, body: Body::Leaf(payload), spare: vec![] }
+        Node { cc: *cc, large: false, label: None, body: Body::Leaf(payload), spare: vec![], open_ended: false }
     }
     pub fn kids(cc: &[u8; 4], kids: Vec<Node>) -> Node {
-        Node { cc: *cc, large: false, label: None, body: Body::Kids { prefix: vec![], kids, suffix: vec![] }, spare: vec![] }
+        Node { cc: *cc, large: false, label: None, body: Body::Kids { prefix: vec![], kids, suffix: vec![] }, spare: vec![], open_ended: false }
     }
     pub fn kids_with_prefix(cc: &[u8; 4], prefix: Vec<u8>, kids: Vec<Node>) -> Node {
-        Node { cc: *cc, large: false, label: None, body: Body::Kids { prefix, kids, suffix: vec![] }, spare: vec![] }
+        Node { cc: *cc, large: false, label: None, body: Body::Kids { prefix, kids, suffix: vec![] }, spare: vec![], open_ended: false }
     }
     pub fn dynamic(cc: &[u8; 4], f: Arc<dyn Fn(&Anchors) -> Vec<u8> + Send + Sync>) -> Node {
-        Node { cc: *cc, large: false, label: None, body: Body::Dyn(f), spare: vec![] }
+        Node { cc: *cc, large: false, label: None, body: Body::Dyn(f), spare: vec![], open_ended: false }
     }
     pub fn labelled(mut self, l: &str) -> Node {
         self.label = Some(l.to_string());
+        self
+    }
+    pub fn with_open_end(mut self, o: bool) -> Node {
+        self.open_ended = o;
         self
     }
     pub fn with_large(mut self, l: bool) -> Node {
@@ -72,11 +78,15 @@ impl Node {
     }
 }
 
-fn emit(n: &Node, anchors_in: &Anchors, out: &mut Vec<u8>, anchors_out: &mut Anchors) {
+fn emit(n: &Node, anchors_in: &Anchors, out: &mut Vec<u8>, anchors_out: &mut Anchors, last_top_level: bool) {
+    // "extends to the end of the file" is only expressible on the last top-level box; elsewhere the flag is ignored
+    let open_ended = n.open_ended && last_top_level;
     let start = out.len() as u64;
-    let hdr = if n.large { 16 } else { 8 };
+    // an open-ended box keeps the compact header whatever `large` says
+    let large = n.large && !open_ended;
+    let hdr = if large { 16 } else { 8 };
     out.extend_from_slice(&[0; 8]);
-    if n.large {
+    if large {
         out.extend_from_slice(&[0; 8]);
     }
     out[start as usize + 4..start as usize + 8].copy_from_slice(&n.cc);
@@ -89,7 +99,7 @@ fn emit(n: &Node, anchors_in: &Anchors, out: &mut Vec<u8>, anchors_out: &mut Anc
         Body::Kids { prefix, kids, suffix } => {
             out.extend_from_slice(prefix);
             for k in kids {
-                emit(k, anchors_in, out, anchors_out);
+                emit(k, anchors_in, out, anchors_out, false);
             }
             out.extend_from_slice(suffix);
         }
@@ -97,7 +107,9 @@ fn emit(n: &Node, anchors_in: &Anchors, out: &mut Vec<u8>, anchors_out: &mut Anc
     out.extend_from_slice(&n.spare);
     let size = out.len() as u64 - start;
     let s = start as usize;
-    if n.large {
+    if open_ended {
+        out[s..s + 4].copy_from_slice(&0u32.to_be_bytes());
+    } else if large {
         out[s..s + 4].copy_from_slice(&1u32.to_be_bytes());
         out[s + 8..s + 16].copy_from_slice(&size.to_be_bytes());
     } else {
@@ -111,13 +123,13 @@ fn emit(n: &Node, anchors_in: &Anchors, out: &mut Vec<u8>, anchors_out: &mut Anc
 pub fn serialize(nodes: &[Node]) -> (Vec<u8>, Anchors) {
     let mut a0 = Anchors::new();
     let mut out = vec![];
-    for n in nodes {
-        emit(n, &Anchors::new(), &mut out, &mut a0);
+    for (i, n) in nodes.iter().enumerate() {
+        emit(n, &Anchors::new(), &mut out, &mut a0, i + 1 == nodes.len());
     }
     let mut a1 = Anchors::new();
     let mut out2 = Vec::with_capacity(out.len());
-    for n in nodes {
-        emit(n, &a0, &mut out2, &mut a1);
+    for (i, n) in nodes.iter().enumerate() {
+        emit(n, &a0, &mut out2, &mut a1, i + 1 == nodes.len());
     }
     assert_eq!(out.len(), out2.len(), "reference encoder: a position-dependent leaf changed its length");
     (out2, a1)
